@@ -1,6 +1,8 @@
 package main
 
 import (
+	"github.com/grailbio/bigslice/slicetype"
+	"reflect"
 	"context"
 	"fmt"
 	"os"
@@ -100,6 +102,71 @@ func runC09(c string) string {
 				out = append(out, fmt.Sprintf("rows=%s len=%d", sortedRows(f), cf.Len()))
 			}
 		}
+	case "CBT":
+		// the combiner over another key type: "CBT <kind> <chunk> <target>"; keys are the typed images (kinds.go) of the
+		// case's small naturals, shown converted back
+		kind := h[1]
+		save := defaultsize.Chunk
+		defaultsize.Chunk = atoi(h[2])
+		defer func() { defaultsize.Chunk = save }()
+		before := tmpEntries("spiller-")
+		typT := slicetype.New(kindType(kind), reflect.TypeOf(int64(0)))
+		cb, err := exec.VerifNewCombiner(typT, "verif", addComb, atoi(h[3]))
+		if err != nil {
+			return "newerr"
+		}
+		ctx := context.Background()
+		mk := func(rows [][2]int64) frame.Frame {
+			ks := reflect.MakeSlice(reflect.SliceOf(kindType(kind)), len(rows), len(rows))
+			vs := make([]int64, len(rows))
+			for i, r := range rows {
+				ks.Index(i).Set(fromInt(kind, int(r[0])))
+				vs[i] = r[1]
+			}
+			return frame.Slices(ks.Interface(), vs)
+		}
+		for _, p := range parts[1:] {
+			op := fields(p)
+			if len(op) == 0 {
+				continue
+			}
+			switch op[0] {
+			case "combine":
+				if err := cb.Combine(ctx, mk(parseKV(op[1:]))); err != nil {
+					out = append(out, "combineerr")
+				}
+			case "reader":
+				var dest []int
+				for _, t := range op[2:] {
+					dest = append(dest, atoi(t))
+				}
+				r, err := cb.Reader()
+				if err != nil {
+					out = append(out, "readererr")
+					continue
+				}
+				var rows []string
+				res := "NOEND"
+				for i := 0; i < 4000; i++ {
+					k := dest[i%len(dest)]
+					f := frame.Make(typT, k, k)
+					n, err := r.Read(ctx, f)
+					for j := 0; j < n && j < k; j++ {
+						rows = append(rows, fmt.Sprintf("%d,%d", toInt(kind, f.Index(0, j)), f.Index(1, j).Int()))
+					}
+					if err != nil {
+						res = errClass(err)
+						break
+					}
+				}
+				out = append(out, fmt.Sprintf("end calls=0:0:%s:0 | rows=%s | altered=0", res, strings.Join(rows, ";")))
+			case "discard":
+				if err := cb.Discard(); err != nil {
+					out = append(out, "discarderr")
+				}
+			}
+		}
+		out = append(out, fmt.Sprintf("spilldirs=%d", tmpEntries("spiller-")-before))
 	case "CB":
 		save := defaultsize.Chunk
 		defaultsize.Chunk = atoi(h[1])
